@@ -868,7 +868,9 @@ class ContentElement(TTMLElement):
 
             if self.implicit_end is not None and child_element.desired_end is not None:
 
-              self.implicit_end = max(self.implicit_end, child_element.desired_end)
+              # the end of the child is an offset from the begin of this element, the implicit end is not
+
+              self.implicit_end = max(self.implicit_end, child_element.desired_end + self.desired_begin)
 
             else:
 
